@@ -5,9 +5,7 @@ use ntex_bytes::ByteString;
 use ntex_service::{Pipeline, Service, ServiceCtx, cfg::Cfg};
 use ntex_util::{HashMap, HashSet, future::Either, future::join};
 
-use crate::error::{
-    DecodeError, DispatcherError, PayloadError, ProtocolError, SpecViolation,
-};
+use crate::error::{DecodeError, DispatcherError, PayloadError, ProtocolError, SpecViolation};
 use crate::payload::{Payload, PayloadStatus};
 use crate::v5::codec::{Decoded, DisconnectReasonCode, Encoded, Packet};
 use crate::v5::shared::{Ack, MqttShared};
